@@ -10,7 +10,8 @@ Mk(fam, never, b) ==
    fallible |-> FALSE, group |-> FALSE, never |-> never, x |-> -1, conts |-> <<"x">>] @@ b
 
 Fams == {"wait_until", "wait_until_stream"}
-CfgsQuick == {[reuse |-> TRUE] @@ Mk(f, <<>>, B(FALSE, 1, 1, 1, 0, 1, 0, FALSE, FALSE)) : f \in Fams} \cup
+CfgsQuick == {[repoll |-> TRUE] @@ Mk("wait_until", <<>>, B(FALSE, 1, 1, 1, 0, 0, 0, FALSE, FALSE))} \cup
+             {[reuse |-> TRUE] @@ Mk(f, <<>>, B(FALSE, 1, 1, 1, 0, 1, 0, FALSE, FALSE)) : f \in Fams} \cup
              {Mk(f, <<>>, B(FALSE, 2, 2, 2, 1, 1, 1, TRUE, TRUE)) : f \in Fams}
              \cup {Mk(f, nv, B(FALSE, 1, 1, 1, 0, 1, 1, FALSE, FALSE)) : f \in Fams, nv \in {<<0>>, <<1>>}}
 CfgsThorough == CfgsQuick \cup {Mk(f, nv, B(FALSE, 3, 2, 3, 1, 2, 2, TRUE, TRUE)) : f \in Fams, nv \in {<<>>, <<0>>, <<1>>}}
